@@ -518,6 +518,8 @@ func checkC04(c *Ctx) *report.Result {
 		r.Ob("I-if", n > 0, "stores to IF bits examined over every run-phase entry", "", fmt.Sprintf("%d stores", n))
 		r.Instances["I-if"] += n
 	}
+	r.Rule("I-boundary", "the boundary check is made at the start of a machine cycle, by the fetch routine, before that cycle's sub-instruction and never after it (rule S1 of C02 re-stated): it sees every request raised up to the end of the previous machine cycle")
+	adopt(r, c.sibling("C02"), map[string]string{"S1": "I-boundary"}, "a check made at the end of the completing instruction's last cycle misses a request a peripheral raises in that cycle: no dispatch at the boundary although IME, IE and IF allow it")
 	r.Rule("I-halt", "the address pushed when an interrupt is taken out of HALT is that of the instruction after HALT: HALT's own decision table (H-halt of C05 re-stated: it sets halted or the halt-bug flag and nothing else - in particular it does not move PC)")
 	adopt(r, c.sibling("C05"), map[string]string{"H-halt": "I-halt"}, "a HALT that rewinds PC makes the dispatch push the address of the HALT instead of the next instruction")
 	return r
@@ -707,6 +709,8 @@ func checkC05(c *Ctx) *report.Result {
 		r.Ob("H-own", n > 0, "stores to halted / halt-bug examined over every run-phase entry", "", fmt.Sprintf("%d stores", n))
 		r.Instances["H-own"] += n
 	}
+	r.Rule("H-step", "the CPU step - which polls for the wake-up while halted - is called once per machine cycle whatever the CPU state (rule L2 of C26 re-stated)")
+	adopt(r, c.sibling("C26"), map[string]string{"L2": "H-step"}, "a halted CPU that is not stepped never sees the request that should end HALT")
 	r.Rule("H-dispatch", "the dispatch out of HALT clears exactly the IF bit of the interrupt it serves (I-dispatch of C04 re-stated)")
 	adopt(r, c.sibling("C04"), map[string]string{"I-dispatch": "H-dispatch"}, "a wake-up dispatch that leaves the served request set is taken again after RETI: the instruction after HALT is never reached")
 	return r
